@@ -227,6 +227,13 @@ class Runner:
                 q[k] = q.get(k, 0) + v
             tsolve += r["stats"].get("tsolve", 0)
         functions = sorted({f for r in ok for f in r.get("functions", [])})
+        cv = {"queries": 0, "agree": 0, "disagree": 0, "unknown": 0, "errors": 0, "time": 0.0}
+        for r in ok:
+            for k in cv:
+                cv[k] += r.get("cvc5", {}).get(k, 0)
+        cv["time"] = round(cv["time"], 2)
+        if cv["disagree"]:
+            self.harness_errors.append(("z3 and cvc5 disagree on an obligation", cv["disagree"], [r.get("cvc5_disagreements") for r in ok if r.get("cvc5_disagreements")][:1]))
         fam = []
         for r in ok:
             s = r["stats"]
@@ -277,6 +284,7 @@ class Runner:
             undecided_obligations=sum(r["undecided"] for r in ok),
             solver_queries=q,
             solver_time_s=round(tsolve, 2),
+            cvc5_recheck_of_obligations=cv if cv["queries"] else "not run in this tier (set by --tier thorough)",
             unfinished_cells_spot_checked_on_plain_library=self.spot_checked,
             shadow_mismatches=len(self.mismatches),
             mismatch_samples=self.mismatches[:3],
